@@ -28,6 +28,16 @@ fn zrep<G: Grp>(rng: &mut StdRng) -> G {
     G::rep(rng, G::zero(), t)
 }
 fn any_elem<G: Grp>(rng: &mut StdRng, pool: &Pool) -> (G, Fr) {
+    if rng.gen_range(0..8) == 1 {
+        // a base whose raw y is +-1/2: doubling it returns the base's own z (or -z), so that the next addition of the
+        // double-and-add loop sees two non-normalised operands with a common z
+        for _ in 0..8 {
+            let (e, ke) = elem::<G>(rng, pool, "A");
+            if let Some(h) = e.half_y(rng.gen()) {
+                return (h, ke);
+            }
+        }
+    }
     if rng.gen_range(0..8) == 0 {
         (zrep::<G>(rng), Fr::zero())
     } else {
@@ -50,6 +60,12 @@ fn group_round<G: Grp>(rng: &mut StdRng, pool: &Pool, out: &mut Out, k: u64, foc
             let e = if rng.gen() { a.endo() } else { a.endo().endo() };
             let e = if rng.gen() { -e } else { e };
             (if rng.gen() { e } else { G::rep(rng, e, tb) }, Fr::zero())
+        }
+        5 => {
+            // an unrelated point presented so that one RAW coordinate coincides with a's (common z != 1, equal raw x, equal raw y)
+            let (e, ke) = elem::<G>(rng, pool, tb);
+            let which = rng.gen_range(0..4usize).min(2);
+            (e.share_coord(&a, which).unwrap_or(e), ke)
         }
         _ => elem::<G>(rng, pool, tb),
     };
